@@ -49,7 +49,17 @@ def _setup(case):
     n = len(xf) - 1
     disc = cases.build_disc(model, mesh, case["num"], None, {"type": "per"}, {"type": "per"})
     q0 = cases.profile(case["field"], cases.norm_coord(xf))
+    xc_ = 0.5 * (xf[1:] + xf[:-1])
+    seam = float(xc_[0] + mesh.length - xc_[-1]) / float(np.mean(xf[1:] - xf[:-1]))
+    if not 0.2 <= seam <= 5.0:
+        # flowdyn closes the periodic gradient with the NOMINAL length of the mesh: on a morphed mesh whose image has another extent the seam distance
+        # xc[0] + length - xc[-1] can vanish or change sign.  Such meshes are outside what the periodic closure supports; not judged.
+        raise Skip("periodic closure degenerate on this mesh (image extent differs from the nominal length: seam distance %.3g cells)" % seam)
     A, z = operator_matrix(disc, model, mesh, n)
+    if not (np.all(np.isfinite(A)) and np.all(np.isfinite(z))):
+        # flowdyn closes the periodic gradient with the NOMINAL length of the mesh: on a morphed mesh whose image has another extent the seam distance
+        # xc[0] + length - xc[-1] can vanish (0/0).  Such meshes are outside what the periodic closure supports; not judged.
+        raise Skip("periodic closure undefined on this mesh (image extent differs from the nominal length and the seam distance vanishes)")
     require(np.max(np.abs(z)) == 0.0, "operator-affine", "rhs(0) != 0 for periodic linear convection")
     dx = xf[1:] - xf[:-1]
     return md, model, mesh, disc, n, q0, A, dx
@@ -63,7 +73,7 @@ def strat_theta(tier):
     unit = st.one_of(st.just(1.0), st.just(1.0), gen.logf(-10, 4))
     dtfac = st.one_of(st.just([1.0, 1.0, 1.0, 1.0]), st.lists(st.one_of(gen.logf(-1.5, 1.5), gen.f(0.5, 2.0)), min_size=4, max_size=4))
     return st.builds(lambda md, me, num, fld, integ, cfl, ns, loc, u, df: dict(model=md, mesh=cases.scale_mesh(me, u), num=num, field=fld, integ=integ, cfl=cfl, nsteps=ns, local=loc, unit=u, dtfac=df),
-                     gen.model_convection(), gen.mesh_any(2, nmax), _linear_nums(), _field(), st.sampled_from(im), gen.logf(-2, 2), st.integers(1, 4), st.booleans(), unit, dtfac)
+                     gen.model_convection(), st.one_of(gen.mesh_any(2, nmax), gen.mesh_any(2, nmax), gen.mesh_any(2, nmax), gen.mesh_morph_moving(2, nmax)), _linear_nums(), _field(), st.sampled_from(im), gen.logf(-2, 2), st.integers(1, 4), st.booleans(), unit, dtfac)
 
 
 def strat_theta_large(tier):
